@@ -35,7 +35,7 @@ def write_replay(v):
     os.makedirs(d, exist_ok=True)
     body = json.dumps(v, sort_keys=True, default=str)
     h = hashlib.sha1(body.encode()).hexdigest()[:10]
-    p = os.path.join(d, "%s-%s-%s.json" % (v["property"], v["env"], h))
+    p = os.path.join(d, "%s-%s-%s.json" % (v["property"], "".join(c if c.isalnum() or c in "_-" else "_" for c in str(v["env"])), h))
     open(p, "w").write(body)
     return p
 
